@@ -203,7 +203,8 @@ fn handle<M: Meta>(ctx: &BuildContext<TestBp>, name: &LayerName, spec: &Value, s
                 .map(|p| dump_env(&data.env.apply(scope_of(&p["scope"]), &env_of(&p["env"]))))
                 .collect();
             json!({"ok": true, "types": t.map(|t| json!({"launch": t.launch, "build": t.build, "cache": t.cache})), "md": data.content_metadata.metadata.dump(),
-                   "probes": outs, "path_ok": data.path == ctx.layers_dir.join(name.as_str())})
+                   "probes": outs, "path_ok": data.path == ctx.layers_dir.join(name.as_str()),
+                   "layer_path": data.path.display().to_string()})
         }
         Err(e) => json!({"ok": false, "err": err_kind(&e), "text": format!("{e:?}").chars().take(200).collect::<String>()}),
     };
